@@ -48,7 +48,7 @@ class split_with_remainder:
     def ensures_shares(total_amount, split_count, result):
         return result == split_spec(total_amount, split_count)
 
-    canaries = [("yield value_each + 1", "yield value_each"), ("range(split_count - extra_count)", "range(split_count - extra_count - 1)")]
+    canaries = [("value_each + 1", "value_each + 0"), ("range(split_count - extra_count)", "range(split_count - extra_count - 1)")]
 
     def samples(rng):
         c = rng.choice([1, 1, 2, 3, 5, 12, 40])
